@@ -205,4 +205,15 @@ theorem getattribute_swaps_placeholder (truth : Term → Bool)
 example : FS.column (.seq 1) (some 3) = some 3 ∧ FS.column (.seq 2) (some 3) = none ∧
     FS.column (.seq 1) (some 0) = none ∧ FS.column (.seq 4) none = some 4 := by decide
 
+/-! ### evaluation order (the `let`-inlined terms do not say when an assigned call runs; the regenerated call order does) -/
+
+/-- `__delitem__` / `pop` remove the key from the dict FIRST and ask `hasattr` afterwards (the reading
+    `Model/PyEvalStore.lean` gives the inlined return term); `__setitem__` reconciles the value before anything is stored, so a
+    rejected value leaves the frame as it was. -/
+theorem store_path_call_order :
+    DataFrame_delitem_call_order = ["super", "super().__delitem__", "hasattr", "self.__is_builtin_attr", "super", "super().__delattr__"] ∧
+    DataFrame_pop_call_order = ["super", "super().pop", "hasattr", "self.__is_builtin_attr", "super", "super().__delattr__"] ∧
+    DataFrame_setitem_call_order = ["self._reconcile_column", "self.__hasattr", "key.isidentifier", "super", "super().__setattr__", "super", "super().__setitem__"] :=
+  ⟨rfl, rfl, rfl⟩
+
 end DI.Tie.C01
